@@ -1372,6 +1372,7 @@ class Linker:
         self.__globals = {}
         self.__loader = loader
         self.__pendingImports = set()
+        self.__loadedImports = set()
 
     def AddModule(self, module: Module):
         self.__modules.append(module)
@@ -1386,8 +1387,16 @@ class Linker:
         self.__pendingImports.update(module.Imports)
 
     def Link(self) -> Program:
-        # add all imported modules
-        for importedModule in self.__pendingImports:
+        # Add all imported modules, including the imports of imported
+        # modules. AddModule extends the pending set, so we take one name at
+        # a time instead of iterating over it; every module is loaded once,
+        # however many modules import it
+        while self.__pendingImports:
+            importedModule = min(self.__pendingImports)
+            self.__pendingImports.remove(importedModule)
+            if importedModule in self.__loadedImports:
+                continue
+            self.__loadedImports.add(importedModule)
             self.AddModule(self.__loader.Load(importedModule))
 
         return Program(self.__functions, self.__globals)
